@@ -520,6 +520,51 @@ Finish ==
   /\ (Emit /\ Mode = "gen") => PrintT("VCASE " \o ToJson(Current))
   /\ UNCHANGED <<ms, outs, want, pick>>
 
+(* ======================================================================= *)
+(* "huge": aggregates of 4 GiB and more.  TLC's integers are 32 bit, so the member that makes the aggregate huge   *)
+(* is a *stretch array* (an array term with a field st) whose byte size is n0 + D: the spec lays the type out for   *)
+(* D = 0, 64, 128, 192, asserts that every observable (size, every offset, sampled element index) is AFFINE in D     *)
+(* over these points (alignments divide 64, so the layout is periodic in D with period 64) and prints the layouts     *)
+(* for D = 0 and D = 64; props/c06.py evaluates base + slope * (D / 64) for D = 2^32 - 64, 2^32, 2^33, 2^40 with     *)
+(* unbounded integers.  gcc and clang are asked about the same huge types (audit), so a wrong extrapolation is a      *)
+(* SPEC-AUDIT machinery error, never a VIOLATION.                                                                     *)
+IsStretch(T) == T.k = "arr" /\ "st" \in DOMAIN T
+RECURSIVE StretchT(_, _), HasStretch(_)
+StretchT(T, d) ==
+  CASE T.k = "sc"  -> T
+    [] T.k = "arr" -> IF IsStretch(T) THEN [T EXCEPT !.n = @ + d * (64 \div SSize(T.of.n))] ELSE [T EXCEPT !.of = StretchT(@, d)]
+    [] T.k = "su"  -> [T EXCEPT !.ms = [i \in 1..Len(T.ms) |-> [T.ms[i] EXCEPT !.t = StretchT(@, d)]]]
+HasStretch(T) == IF T.k = "sc" THEN FALSE ELSE IF T.k = "arr" THEN IsStretch(T) \/ HasStretch(T.of)
+                 ELSE \E i \in 1..Len(T.ms) : HasStretch(T.ms[i].t)
+
+SARR(n, c) == [k |-> "arr", of |-> SC(n), n |-> c, st |-> TRUE]
+HugeInner == SU(FALSE, FALSE, <<MEM(SARR("char", 64), TRUE, -1, 0), MEM(SC("char"), TRUE, -1, 0)>>)
+HugeUniverse ==
+  {MEM(SARR("char", c), TRUE, -1, 0) : c \in {63, 64, 68}} \cup {MEM(SARR("short", 32), TRUE, -1, 0), MEM(SARR("long", 8), TRUE, -1, 0)}
+  \cup {MEM(SC(n), TRUE, -1, 0) : n \in {"char", "int", "long"}} \cup {MEM(CI, TRUE, -1, 0), MEM(SC("int"), TRUE, 3, 0)}
+  \cup {MEM(HugeInner, TRUE, -1, 0), MEM(ARR(HugeInner, 2), TRUE, -1, 0)}
+HugeTerms ==
+  {SU(un, FALSE, s) : un \in BOOLEAN,
+                      s \in {q \in UNION {[1..n -> HugeUniverse] : n \in 1..MaxLen} : \E i \in DOMAIN q : HasStretch(q[i].t)}}
+
+Affine(a, b, c, d) == b - a = c - b /\ c - b = d - c
+AffineSummary(T, v) ==
+  LET S == [d \in 0..3 |-> Summary(StretchT(T, d), v)] IN
+  /\ Affine(S[0].size, S[1].size, S[2].size, S[3].size)
+  /\ S[0].align = S[1].align /\ S[1].align = S[2].align /\ S[2].align = S[3].align
+  /\ \A j \in 1..Len(S[0].nodes) :
+       /\ Affine(S[0].nodes[j].off, S[1].nodes[j].off, S[2].nodes[j].off, S[3].nodes[j].off)
+       /\ S[0].nodes[j].bo = S[3].nodes[j].bo /\ S[0].nodes[j].w = S[3].nodes[j].w
+       /\ \A e \in 1..Len(S[0].nodes[j].p) : Affine(S[0].nodes[j].p[e], S[1].nodes[j].p[e], S[2].nodes[j].p[e], S[3].nodes[j].p[e])
+
+HugeOne ==
+  /\ Mode = "huge" /\ phase = "idle"
+  /\ LET T == pool[1].t IN
+     /\ Assert(\A r \in BOOLEAN : AffineSummary(T, DView(r)) /\ AffineSummary(T, IView(Devs, r)), <<"layout is not affine in the stretch", T>>)
+     /\ PrintT("VCASE " \o ToJson([k |-> "huge", t |-> T, c0 |-> Case(StretchT(T, 0)), c1 |-> Case(StretchT(T, 1))]))
+  /\ phase' = "done"
+  /\ UNCHANGED <<st, ms, outs, pool, want, pick>>
+
 (* "eval": the harness hands type terms (deduplicated output of a "gen" run, or terms of its own making for  *)
 (* C08 signatures) back to TLC; one initial state per term, one step that prints the expectations.          *)
 Input == IF Mode = "eval" THEN ndJsonDeserialize(IOEnv.LAYOUT_IN) ELSE <<>>
@@ -531,17 +576,19 @@ EvalOne ==
   /\ UNCHANGED <<st, ms, outs, pool, want, pick>>
 
 Init ==
-  /\ Mode \in {"mc", "gen", "enum", "eval"}
+  /\ Mode \in {"mc", "gen", "enum", "eval", "huge"}
   /\ ms = <<>> /\ outs = <<>> /\ pick = ""
-  /\ Mode # "eval" => pool = <<>>
+  /\ Mode \notin {"eval", "huge"} => pool = <<>>
   /\ CASE Mode = "mc"   -> \E un \in BOOLEAN, pk \in BOOLEAN : (un => ~pk) /\ (McSel = "scan" => ~un /\ ~pk) /\ st = Acc0(un, pk) /\ phase = "build" /\ want = MaxLen
        [] Mode = "gen"  -> st = Acc0(FALSE, FALSE) /\ phase = "idle" /\ want = 0
        [] Mode = "eval" -> LET inp == Input IN
                            \E i \in 1..Len(inp) : pool = <<[t |-> inp[i]]>> /\ st = Acc0(FALSE, FALSE) /\ phase = "idle" /\ want = i
+       [] Mode = "huge" -> \E T \in HugeTerms : pool = <<[t |-> T]>> /\ st = Acc0(FALSE, FALSE) /\ phase = "idle" /\ want = 0
        [] Mode = "enum" -> \E f \in FixedTypes \cup {"none"} : st = EInit(f) /\ phase = "build" /\ want = 0
 
 Next == IF Mode = "enum" THEN AddEnumerator \/ FinishEnum
         ELSE IF Mode = "eval" THEN EvalOne
+        ELSE IF Mode = "huge" THEN HugeOne
         ELSE AddPlain \/ AddBitfield \/ AddAnonymous \/ Finish \/ Begin \/ Pick
 
 Spec == Init /\ [][Next]_vars
